@@ -170,7 +170,7 @@ impl Prop for C12 {
 
     fn budget(tier: Tier) -> Budget {
         match tier {
-            Tier::Quick => Budget { cases: 20_000, shards: 16 },
+            Tier::Quick => Budget { cases: 40000, shards: 16 },
             Tier::Thorough => Budget { cases: 400_000, shards: 16 },
         }
     }
